@@ -359,5 +359,12 @@ _add("C17", "a stateful builder (identity, destructor) through raw parts; hand-b
 _add("C18", "hand-built raw parts with capacity 0 and arbitrary dangling handles (a release of a never-allocated address is recorded)")
 _add("C16", "class owner: borrows derived from owning handles (downcast_ref/mut, as_bytes, lazy_clone, LazyClone::new) must not survive the handle's drop, consumption, move or scope")
 _add("C15", "typed and erased range iterators and typed views over backends whose builder or Mem is !Send / !Sync")
+_CF = "Clone::clone_from workload: 31 element-type pairs, non-empty tight destinations, a Clone that panics at the k-th element, destructor accounting, storage alignment, allocator monitor"
+for _p in ("C03", "C05", "C06", "C08", "C10", "C12", "C18"):
+    _add(_p, _CF)
+_add("C02", "a replacement iterator that gains items while the splice handle is alive; growth of the vector under a live typed range handle")
+_add("C13", "the same typed view compared with the vector again after every typed operation; range and element families; over-aligned Stack workload")
+_add("C10", "shrinking 32/48 MiB chunks by less than a page ends exactly at the bound")
+_add("C08", "the builder carried by an empty clone is the one that built its storage")
 for _p, _t in RULE_ADDENDA.items():
     CHECKS[_p]["rule"] += "; " + _t
